@@ -135,6 +135,7 @@ def judge(acc, source, spec, model, cls, payload):
         for r in f.relations:
             stack.extend(r.children)
     step = max(1, len(feats) // 3000)
+    own = {id(x) for x in feats}
     for f in feats[::step]:
         def run(f=f):
             op = FMFeatureAncestors()
@@ -145,6 +146,14 @@ def judge(acc, source, spec, model, cls, payload):
             bad = True
             break
         got = [x.name for x in res]
+        if got == anc[f.name] and any(id(x) not in own for x in res):
+            # the right names, but objects that are not features of this tree (a stale parent pointer to a
+            # replaced object of the same name)
+            bad = True
+            acc.fail(cls, "matches-definition", "FMFeatureAncestors", tags, "foreign-objects",
+                     f"ancestors({f.name}) contains objects that are not in the tree: "
+                     f"{[x.name for x in res if id(x) not in own][:5]}", payload, key)
+            break
         if got != anc[f.name]:
             bad = True
             acc.fail(cls, "matches-definition", "FMFeatureAncestors", tags, "wrong-value",
